@@ -32,4 +32,19 @@ static inline struct strict_delta strict_delta_window(int len0, unsigned win)
 extern int g_delta_len0, g_delta_stop, g_delta_seen;
 extern unsigned g_delta_win;
 
+
+/* ---- make_tree(): verdict of the completeness (Kraft) test */
+extern int g_mt_stop, g_mt_verdict;
+
+/* ---- selector codes: unary, 0 -> 0, 10 -> 1, ... 111110 -> 5; six ones is not a code (returns 6) */
+static inline unsigned spec_selector_code(unsigned win6)
+{
+  unsigned n = 0;
+  while (n < 6 && ((win6 >> (5 - n)) & 1u)) n++;
+  return n;
+}
+extern unsigned g_sel_win; extern int g_sel_seen, g_sel_stop, g_group_stop, g_eob_ok;
+extern unsigned g_nsel_read;
+extern int g_no_mtfv;
+
 #endif
